@@ -17,6 +17,7 @@ import Rmk.Impl.Iters
 import Rmk.Impl.Elem
 import Rmk.Impl.UintExtra
 import Rmk.Impl.DeserWork
+import Rmk.Impl.DeserTree
 import Rmk.Proofs.DeserWorkBound
 import Driver.Sexp
 namespace Driver
@@ -285,18 +286,30 @@ def runDec (t : Ty) (pre body post : List UInt8) : String :=
   -- the work of the decoder (number of `deserialize` calls) and the linear bound proved for it
   let work := kv "i.work" (toString (Impl.deserWork t stream body.length))
   let bound := kv "i.workbound" (toString (DeserWorkBound.W t * (body.length + 1) + DeserWorkBound.A t))
+  -- the SHAPE of the tree the bit-field decoders build directly from the chunks of the input
+  let rec shapeStr (fuel : Nat) (n : Node) : String :=
+    match fuel, n with
+    | 0, _ => "..."
+    | _, .leaf c => "L" ++ hexOf c
+    | f+1, .pair l r => "(" ++ shapeStr f l ++ shapeStr f r ++ ")"
+  let shape : List String := match t with
+    | .bitlist lim => (match Impl.deserBitlistTree H lim (stream.take body.length) with
+        | some n => [kv "i.shape" (shapeStr 64 n)] | none => [])
+    | .bitvector len => (match Impl.deserBitvectorTree H len (stream.take body.length) with
+        | some n => [kv "i.shape" (shapeStr 64 n)] | none => [])
+    | _ => []
   match Impl.deser t stream body.length with
   | none => join [kv "i.dec" "err", work, bound]
   | some (v, rest) =>
     let n := Impl.construct H t v
-    join [
+    join (shape ++ [
       work, bound,
       kv "i.dec" (valStr v),
       kv "i.consumed" (toString (stream.length - rest.length)),
       kv "wt" (b01 (WT t v)),
       kv "s.bytes" (hexOf (Spec.serialize t v)),
       kv "s.root" (hexOf (Spec.htr H t v)),
-      kv "i.root" (rootO n)]
+      kv "i.root" (rootO n)])
 
 def nodeStr (n : Node) : String := hexOf (n.root H) ++ (if n.isLeaf then ":L" else ":P")
 
